@@ -226,9 +226,10 @@ _reg("C11", c11.run,
                 "keys, chain edges and end-point types taken from the first/last node.",
      level_note="Lean kernel; hand-written model of from_list; class-name list tied to the source by T2; node-object "
                 "identity is exhibited by the correspondence/oracle run only (the model has values, not object ids).")
-_reg("C12", c12.run,
+_reg("C12", c12.run, translator=("T12",), module="NirVerif.Properties.C12Generated",
      theorems=["NirVerif.C12.init", "NirVerif.C12.fromList_mirror", "NirVerif.C12.infer_mirror", "NirVerif.C12.infer_history",
-               "NirVerif.C12.fromDict_mirror", "NirVerif.C12.read_mirror", "NirVerif.C12.history_mirror"],
+               "NirVerif.C12.fromDict_mirror", "NirVerif.C12.read_mirror", "NirVerif.C12.history_mirror",
+               "NirVerif.C12.spec_generated", "NirVerif.C12.interface_generated"],
      rule="Graphs with 0..n Input/Output children under arbitrary names, optionally nested, edges into Input nodes, "
           "followed by random histories (<=4, thorough <=6 operations) over infer_types / to_dict+from_dict / write+read; "
           "after every operation graph.inputs/outputs/input_type/output_type are compared with a scan of graph.nodes at every depth.",
